@@ -5,7 +5,7 @@ import Nuts.Model.Tx
 import NutsProofs.Props.C10
 import NutsProofs.Lemmas.ReopenObs
 import NutsProofs.Lemmas.ReopenAll
-import NutsProofs.Facts
+import NutsProofs.Pins.Appliers
 namespace NutsProofs.C08
 open Nuts Nuts.Model Nuts.Model.DB NutsProofs
 
